@@ -38,6 +38,20 @@ def run(ctx):
             ctx.notes.append("actions with zero coverage in %s: %s" % (cfg, sorted(set(r.zero_cov))))
     traces = []
     tally = {}
+    # fixed first step, independent of VERIF_SEED: the kept histories of the open findings are replayed on the real
+    # pool; each fingerprint the drivers observe goes through ctx.known_finding (a history that no longer reproduces
+    # yields no line and is not a violation)
+    fdir = os.path.join(os.path.dirname(os.path.dirname(os.path.abspath(__file__))), "spec", "pool", "findings")
+    for fid, mode in (("C42-recheck-gap-after-overlap", ["-mode", "witness", "-kind", "gap"]),
+                      ("C42-limbo-stale-block", ["-mode", "witness", "-kind", "limbo"]),
+                      ("C42-add-panic-after-overflow", ["-mode", "replay"])):
+        hp = os.path.join(fdir, fid + ".behaviours.json")
+        if os.path.exists(hp):
+            ht = os.path.join(ctx.scratch, fid + ".ndjson")
+            s, _ = ctx.drive(drv, mode + ["-in", hp, "-dir", os.path.join(ctx.scratch, "data-" + fid), "-trace", ht],
+                             name="c42-history-" + fid, timeout=T, env={"VERIF_SEED": "1"})
+            pending(ctx, tally, s)
+            traces.append((ht, s["traces"]))
     # KNOWN-FINDINGS C42-recheck-gap-after-overlap / C42-limbo-stale-block (open in known_findings.json): the model's
     # witnesses of the strict properties failing are replayed on the real pool; the drivers count every fingerprint.
     for kind, cfg, tag in (("gap", "pool/MCBlobPoolGap", "NGAP"), ("limbo", "pool/MCBlobPoolLimbo", "LIMBO")):
